@@ -13,6 +13,7 @@ import (
 	"os"
 	"os/exec"
 	"path/filepath"
+	"runtime"
 	"runtime/debug"
 	"runtime/pprof"
 	"sort"
@@ -21,6 +22,7 @@ import (
 	"sync"
 	"syscall"
 	"time"
+	"verif/explore"
 )
 
 // VerifDir is where evidence, replays and logs go.
@@ -170,7 +172,7 @@ func (c *Ctx) Violation(signature, message string, replay any) {
 func (c *Ctx) Violations() int { return len(c.violations) }
 
 // Expired reports whether the worker's internal deadline has passed.
-func (c *Ctx) Expired() bool { return !c.Deadline.IsZero() && time.Now().After(c.Deadline) }
+func (c *Ctx) Expired() bool { return explore.Expired(c.Deadline) != "" }
 
 // Check describes one property check.
 type Check struct {
@@ -315,6 +317,7 @@ func runWorker(id string, chk *Check, tier string, seed int64, spec string) {
 		c.Deadline = time.Now().Add(chk.Budget(thorough))
 	}
 	out := workerOut{}
+	go memoryWatchdog(n)
 	if pf := os.Getenv("VERIF_PROF"); pf != "" {
 		f, _ := os.Create(fmt.Sprintf("%s.%d", pf, shard))
 		_ = pprof.StartCPUProfile(f)
@@ -502,4 +505,38 @@ func lastLine(b []byte) []byte {
 		return b[i+1:]
 	}
 	return b
+}
+
+// memoryWatchdog keeps one worker inside its share of the machine's memory
+// (55% of MemTotal divided by the number of workers, or VERIF_WORKER_MEM_MB):
+// above it, explore.MemoryPressure makes every search stop and report the cap
+// ("memory limit", exhaustive:false) instead of the kernel killing the worker.
+func memoryWatchdog(workers int) {
+	limit := uint64(0)
+	if v, err := strconv.Atoi(os.Getenv("VERIF_WORKER_MEM_MB")); err == nil && v > 0 {
+		limit = uint64(v) << 20
+	} else if b, err := os.ReadFile("/proc/meminfo"); err == nil {
+		var kb uint64
+		for _, l := range strings.Split(string(b), "\n") {
+			if strings.HasPrefix(l, "MemTotal:") {
+				fmt.Sscanf(strings.TrimSpace(strings.TrimPrefix(l, "MemTotal:")), "%d", &kb)
+			}
+		}
+		limit = kb * 1024 * 55 / 100 / uint64(workers)
+	}
+	if limit == 0 {
+		return
+	}
+	debug.SetMemoryLimit(int64(limit + limit/3))
+	var ms runtime.MemStats
+	for {
+		time.Sleep(500 * time.Millisecond)
+		runtime.ReadMemStats(&ms)
+		switch {
+		case ms.HeapAlloc > limit:
+			explore.MemoryPressure.Store(true)
+		case ms.HeapAlloc < limit/2:
+			explore.MemoryPressure.Store(false)
+		}
+	}
 }
